@@ -43,7 +43,7 @@ class Unit:
         self.tier = "quick"
         self.clause = ""
         self.rlimit = None
-        self.text = open(path).read()
+        self.text = _expand_includes(open(path).read(), os.path.dirname(path))
         for line in self.text.split("\n"):
             s = line.strip()
             if s.startswith("//@ property:"):
@@ -55,6 +55,20 @@ class Unit:
                     self.rlimit = kv["rlimit"]
             elif s.startswith("//@ clause:"):
                 self.clause = (self.clause + " " + s.split(":", 1)[1].strip()).strip()
+
+
+def _expand_includes(text, base, depth=0):
+    out = []
+    for line in text.split("\n"):
+        m = re.match(r"\s*//@include\s+(\S+)", line)
+        if m and depth < 4:
+            inc = open(os.path.join(base, m.group(1))).read()
+            out.append("// ---- begin include %s" % m.group(1))
+            out.append(_expand_includes(inc, base, depth + 1))
+            out.append("// ---- end include %s" % m.group(1))
+        else:
+            out.append(line)
+    return "\n".join(out)
 
 
 def load_units(prop):
@@ -125,6 +139,8 @@ def extract_function(file_rel, fn_name, in_hdr=None, nth=1):
 def render_region(hdr, dirs):
     """Returns (text, segments, info). segments: list of (generated_text, src_line or None)."""
     kv = _kv(hdr)
+    if "item" in kv:
+        return render_item(kv, dirs)
     src, ct, (kw, bopen, bclose) = extract_function(kv["file"], kv["fn"], kv.get("in"), int(kv.get("nth", "1")))
     start = ct[kw][2]
     end = ct[bclose][3]
@@ -173,7 +189,7 @@ def render_region(hdr, dirs):
                 raise LostAnchor("anchor not found in fn %s: %s" % (kv["fn"], m.group(1)))
             off = ct[r[0]][2] if m.group(2) == "before" else ct[r[1]][3]
             inserts.append((off, "\n" + payload + "\n"))
-        elif k == "hoist":
+        elif k in ("hoist", "drop"):
             # local item (enum/struct/fn) moved to module level: Verus has no "internal item statements".
             m = re.match(r'"([^"]*)"', d["arg"])
             r = rustlex.find_seq(ct, rustlex.norm(m.group(1)), bopen, bclose + 1, 1)
@@ -202,9 +218,12 @@ def render_region(hdr, dirs):
                     a = k2 - 1
                 else:
                     break
-            hoisted.append(src[ct[r[0]][2]:ct[endi][3]])
             replaces.append((ct[a][2], ct[endi][3], ""))
-            rewrites.append("%s::%s: local item `%s` hoisted to module level, its attributes dropped" % (kv["file"], kv["fn"], m.group(1)))
+            if k == "hoist":
+                hoisted.append(src[ct[r[0]][2]:ct[endi][3]])
+                rewrites.append("%s::%s: local item `%s` hoisted to module level, its attributes dropped" % (kv["file"], kv["fn"], m.group(1)))
+            else:
+                rewrites.append("%s::%s: local item `%s` DROPPED and replaced by the assumed contract of the same name in the environment prelude" % (kv["file"], kv["fn"], m.group(1)))
         elif k == "rewrite":
             m = re.match(r'"([^"]*)"\s*=>\s*"([^"]*)"(?:\s+nth=(\d+|all))?', d["arg"])
             if not m:
@@ -240,6 +259,61 @@ def render_region(hdr, dirs):
     segs.append((src[pos:end], src.count("\n", 0, pos) + 1))
     info = dict(file=kv["file"], fn=kv["fn"], src_hash=sha_text(src[start:end]),
                 src_line=src.count("\n", 0, start) + 1, rewrites=rewrites, hoisted=hoisted)
+    return segs, info
+
+
+def render_item(kv, dirs):
+    """Verbatim extraction of a struct/enum/const/type item (attributes above it are dropped)."""
+    path = os.path.join(REPO, kv["file"])
+    if not os.path.exists(path):
+        raise LostAnchor("file missing: " + kv["file"])
+    src = open(path).read()
+    ct = rustlex.code_tokens(rustlex.lex(src))
+    lo, hi = 0, len(ct)
+    if kv.get("in"):
+        blk = rustlex.find_item_block(ct, rustlex.norm(kv["in"]))
+        if not blk:
+            raise LostAnchor("item header not found: " + kv["in"])
+        lo, hi = blk
+    r = rustlex.find_seq(ct, rustlex.norm(kv["item"]), lo, hi, int(kv.get("nth", "1")))
+    if not r:
+        raise LostAnchor("item not found in %s: %s" % (kv["file"], kv["item"]))
+    j = r[0]
+    while j < hi and not (ct[j][0] == "punct" and ct[j][1] in "{;"):
+        if ct[j][0] == "punct" and ct[j][1] in "([":
+            j = rustlex.match_close(ct, j)
+        j += 1
+    endi = rustlex.match_close(ct, j) if ct[j][1] == "{" else j
+    # tuple structs: `struct X(..);`
+    start, end = ct[r[0]][2], ct[endi][3]
+    replaces, rewrites = [], []
+    for d in dirs:
+        if d["kind"] == "rewrite":
+            m = re.match(r'"([^"]*)"\s*=>\s*"([^"]*)"(?:\s+nth=(\d+|all))?', d["arg"])
+            which = m.group(3) or "1"
+            n, cnt = 1, 0
+            while True:
+                q = rustlex.find_seq(ct, rustlex.norm(m.group(1)), r[0], endi + 1, n)
+                if not q:
+                    break
+                if which == "all" or int(which) == n:
+                    replaces.append((ct[q[0]][2], ct[q[1]][3], m.group(2)))
+                    cnt += 1
+                n += 1
+            if cnt == 0:
+                raise LostAnchor("rewrite source not found in item %s: %s" % (kv["item"], m.group(1)))
+            rewrites.append("%s::%s: `%s` => `%s` (x%d)" % (kv["file"], kv["item"], m.group(1), m.group(2), cnt))
+        else:
+            raise ValueError("directive //@%s not allowed on item extraction" % d["kind"])
+    replaces.sort()
+    segs, pos = [], start
+    for (a, b, t) in replaces:
+        segs.append((src[pos:a], src.count("\n", 0, pos) + 1))
+        segs.append((t, None))
+        pos = b
+    segs.append((src[pos:end], src.count("\n", 0, pos) + 1))
+    info = dict(file=kv["file"], fn=kv["item"], src_hash=sha_text(src[start:end]),
+                src_line=src.count("\n", 0, start) + 1, rewrites=rewrites, hoisted=[])
     return segs, info
 
 
